@@ -133,6 +133,9 @@ def _extra():
     for v in (3, 0):
         add("flags-after-store-and-asm", "unsigned char x, y, r;", "r = 0; x = y; asm(\"LDX #0\", 2); if (x) r = 1;", {"init": {"y": v}, "expect": {"r": int(v != 0)}}, "x = y; asm(LDX #0); if (x), y=%d" % v)
         add("flags-after-store-and-asm", "unsigned char x, y, r;", "r = 0; x = y; asm(\"LDX #1\", 2); if (!x) r = 1;", {"init": {"y": v}, "expect": {"r": int(v == 0)}}, "x = y; asm(LDX #1); if (!x), y=%d" % v)
+    # strobe on an element: the store goes to the element (the accumulator's value lands there)
+    for k in (0, 2, 3):
+        add("strobe-element", "unsigned char regs[4]; unsigned char v;", "load(v); strobe(regs[%d]);" % k, {"init": {"v": 9}, "expect": {"regs+%d" % k: 9}}, "strobe(regs[%d])" % k)
     # loops: for / while / do-while agree
     for n in (0, 1, 5, 200):
         tot = sum(range(n)) & 255
